@@ -25,6 +25,7 @@ import (
 
 	"github.com/zeebo/bencode"
 
+	"github.com/jech/storrent/config"
 	"github.com/jech/storrent/hash"
 	"github.com/jech/storrent/path"
 	"github.com/jech/storrent/peer"
@@ -103,7 +104,11 @@ func (w logWriter) Write(p []byte) (int, error) {
 		rel := make(chan []peer.TorEvent)
 		w.s.heldCh <- rel
 		for _, e := range <-rel {
-			tor.VerifHandleEvent(context.Background(), w.s.T, e)
+			if f, ok := e.(func()); ok {
+				f() // something the loop does by itself (a tick), on the loop's goroutine
+			} else {
+				tor.VerifHandleEvent(context.Background(), w.s.T, e)
+			}
 		}
 		return len(p), nil
 	}
@@ -123,6 +128,22 @@ func TorrentFile(name string, ps uint32, files []File, single bool, content []by
 
 // TorrentFileSparse: only pieces lo..hi get their real hash (hi < 0: all); the others get a
 // dummy one, so that geometries of several GiB cost nothing.  Only lo..hi may be injected.
+var estOnce sync.Once
+
+// InitProcess does what storrent's main does before any torrent exists: the global rate
+// estimators must be initialised, or periodicRequest computes with NaN.
+func InitProcess() {
+	estOnce.Do(func() {
+		peer.UploadEstimator.Init(3 * time.Second)
+		peer.UploadEstimator.Start()
+		peer.DownloadEstimator.Init(3 * time.Second)
+		peer.DownloadEstimator.Start()
+		if config.MemoryMark == 0 {
+			config.MemoryMark = 1 << 30 // main's -mem default is half the RAM: far above what the cases allocate
+		}
+	})
+}
+
 var webOnce sync.Once
 var webURL string
 
@@ -221,6 +242,7 @@ func NewOpt(name string, salt uint32, ps uint32, files []File, single bool, lo, 
 
 // NewOpt2: webSeed configures a web seed (disabled until SetConf enables web seeds).
 func NewOpt2(name string, salt uint32, ps uint32, files []File, single bool, lo, hi int, fakePeer, webSeed bool) (*Sim, error) {
+	InitProcess()
 	var total int64
 	for _, f := range files {
 		total += f.Length
@@ -478,6 +500,15 @@ func (s *Sim) Release(front []peer.TorEvent) {
 	}
 	s.rel <- front
 	s.rel = nil
+}
+
+// Tick runs one real periodicRequest on the loop's goroutine (what the request ticker does).
+func (s *Sim) Tick() bool {
+	if !s.Hold() {
+		return false
+	}
+	s.Release([]peer.TorEvent{func() { tor.VerifPeriodicRequest(context.Background(), s.T) }})
+	return true
 }
 
 // Sync waits until every event sent so far has been handled by the loop.
